@@ -35,6 +35,8 @@ def run(tier, seed, replay=None):
             p, _ = g.overlap()
         elif c < 0.35:
             p = g.inherent()
+        elif c < 0.5:
+            p = g.lifetime_keys_plan()
         else:
             p = g.basic(nfam=rng.choice([1, 1, 2]))
         bases.append(p)
@@ -74,6 +76,9 @@ def run(tier, seed, replay=None):
                 if (has_dup(ref.plan) or has_dup(ev.plan)) and "F-D12" in known_ids:
                     rep.known("F-D12")
                     break
+                if ref.plan.notes.get("bound_only_lifetimes") and label in ("placement", "all") and "F-D20" in known_ids:
+                    rep.known("F-D20")
+                    continue
                 rep.oracle_failures.append({"clause": f"a {label} variant changed " + ("whether the invocation compiles" if obs[0] != ref_obs[0] else "the dispatch table"),
                                             "variant": label, "observable_base": repr(ref_obs)[:600], "observable_variant": repr(obs)[:600],
                                             "first_error_variant": ev.first_error(), "first_error_base": ref.first_error(),
